@@ -44,6 +44,53 @@ def observe_render(fx, np, props, t, codes, kind, shape=None, base=None):
         return dict(row, k='error', err=type(ex).__name__, msg=str(ex)[:200])
 
 
+DERIVE = ['rshift-trunc', 'T', 'flatten', 'copy', 'deepcopy', 'getitem', 'neg', 'lshift', 'like', 'setval', 'setitem', 'invert']
+
+
+def observe_render_derived(fx, np, props, t, codes, kind, how, shape=None):
+    """history: render the parent, derive another object from it (or mutate it), render THAT: the strings must be
+    the image of the codes the rendered object holds now"""
+    s, w, f = t
+    row = {'k': 'render', 'p': list(props), 'kind': kind, 'base': 0, 'route': kind + '/' + how, 'carrier': 'derived'}
+    try:
+        x = mk(fx, np, t, codes, shape)
+        x.bin(); x.hex(); x.bin(frac_dot=True)
+        if how == 'rshift-trunc':
+            x.config.shifting = 'trunc'
+            y = x >> 1
+        elif how == 'T':
+            y = x.T
+        elif how == 'flatten':
+            y = x.flatten()
+        elif how == 'copy':
+            y = x.copy(); y.set_val(x.val[::-1].copy(), raw=True)
+        elif how == 'deepcopy':
+            y = x.deepcopy(); y.set_val(x.val[::-1].copy(), raw=True)
+        elif how == 'getitem':
+            y = x[::-1]
+        elif how == 'neg':
+            y = -x
+        elif how == 'lshift':
+            y = x << 1
+        elif how == 'like':
+            y = fx.Fxp(x.val[::-1].copy(), like=x, raw=True)
+        elif how == 'setval':
+            x.set_val(x.val[::-1].copy(), raw=True); y = x
+        elif how == 'setitem':
+            x[0] = x[len(codes) - 1] if shape is None else x[1]; y = x
+        elif how == 'invert':
+            y = ~x
+        else:
+            raise ValueError(how)
+        r = {'bin': lambda: y.bin(), 'binp': lambda: y.bin(frac_dot=True), 'bin0b': lambda: y.bin(prefix='0b'),
+             'binp0b': lambda: y.bin(frac_dot=True, prefix='0b'), 'hex': lambda: y.hex()}[kind]()
+        strs = _flat_strs(np, r)
+        cl = common.codes_of(y)
+        return dict(row, s=bool(y.signed), w=int(y.n_word), f=int(y.n_frac), c=[wint(c) for c in cl], strs=[chars(z) for z in strs], v=[0] * len(cl))
+    except Exception as ex:
+        return dict(row, k='error', s=bool(s), w=w, f=f, err=type(ex).__name__, msg=str(ex)[:200])
+
+
 def observe_parse(fx, np, props, t, codes, kind, route, raw, shape=None):
     """render with the real code, feed the strings back into an object of the same format by `route`"""
     s, w, f = t
